@@ -169,6 +169,9 @@ impl C12 {
         }
         docs.push(pool.generated(&Family::CyclicParents, 0));
         docs.push(pool.generated(&Family::CyclicParents, 1));
+        for k in 0..3 {
+            docs.push(pool.generated(&Family::Dangling, k));
+        }
         for k in 0..pool.corpus_len() {
             if let Some(d) = pool.corpus(k) {
                 if d.inv.loadable {
